@@ -21,7 +21,7 @@ MOD = "vpc01"
 # ------------------------------------------------------------------------------------------------
 
 INIT = {"FC": 1, "HC": 1, "GC": 2, "LC": 1, "D": 1, "KW": 1, "G": 1, "GL": 1, "TC": 1, "SE": "z", "GV": None, "EDGE": False, "QC": 1,
-        "HID": False, "NC": 1}
+        "HID": False, "NC": 1, "GD": 1, "HD": 1}
 
 
 def text(st):
@@ -29,7 +29,8 @@ def text(st):
     hidden = " + globals()['q'](x)" if st["HID"] else ""
     edge = " + g(x)" if st["EDGE"] else ""
     return (
-        "G = %d\nGL = [%d]\n" % (st["G"], st["GL"])
+        "G = %d\nGL = [%d]\nGD = %d\n\n" % (st["G"], st["GL"], st["GD"])
+        + "def hd(x):\n    return x + %d\n\n" % st["HD"]
         + "%s\ndef g(x):\n    return x * %d\n\n" % (gdeco, st["GC"])
         + "@m.memento_function\ndef q(x):\n    return x + %d\n\n" % st["QC"]
         # (decoys: nested scopes binding the very names the enclosing function uses from the module - an inner binding must not hide
@@ -41,7 +42,9 @@ def text(st):
         + "    lam = lambda y: y + %d\n" % st["LC"]
         + "    def inner(y, z=%d):\n        h = y\n        return h + z\n" % st["NC"]
         + "    s = 1 if 'p' in {'a', %r} else 0\n" % st["SE"]
-        + "    return h(x) + d + t[0] + lam(0) + inner(0) + s + %d%s%s\n" % (st["FC"], edge, hidden)
+        # a module variable and a plain helper that are named ONLY two scopes down (generator expression / comprehension in a lambda)
+        + "    deep = lambda y: sum(GD + k for k in (y,)) + [hd(v) for v in (y,)][0]\n"
+        + "    return h(x) + d + t[0] + lam(0) + inner(0) + s + deep(0) + %d%s%s\n" % (st["FC"], edge, hidden)
     )
 
 
@@ -49,7 +52,7 @@ def expected(st, x=1):
     gx = x * st["GC"]
     h = gx + st["G"] + st["GL"] + st["KW"] + st["HC"]
     s = 1 if st["SE"] == "p" else 0
-    v = h + st["D"] + st["TC"] + st["LC"] + st["NC"] + s + st["FC"]
+    v = h + st["D"] + st["TC"] + st["LC"] + st["NC"] + s + st["FC"] + st["GD"] + st["HD"]
     if st["EDGE"]:
         v += gx
     if st["HID"]:
@@ -64,6 +67,7 @@ EDITS = [
     ("global-rebind", "G", 2, "G"), ("global-mutate-in-place", "GL", 2, "GL"), ("tuple-constant", "TC", 2, "f"),
     ("set-constant-element", "SE", "p", "f"), ("explicit-version-and-body-of-g", "GV", "2", "g"), ("add-call-edge", "EDGE", True, "f"),
     ("hidden-callee-constant", "QC", 2, "q"),
+    ("global-named-two-scopes-down", "GD", 2, "GD"), ("helper-named-two-scopes-down", "HD", 2, "hd"),
 ]
 
 
@@ -82,6 +86,8 @@ def _deliver_inprocess(prog, st, edit):
         prog.mod.G = st["G"]
     elif chunk == "GL":
         prog.mod.GL[0] = st["GL"]
+    elif chunk == "GD":
+        prog.mod.GD = st["GD"]
     else:
         # re-execute only the definition that changed
         full = text(st)
@@ -95,7 +101,7 @@ def _deliver_inprocess(prog, st, edit):
         # simple splitter: definitions are separated by blank lines
         blocks = full.split("\n\n")
         for b in blocks:
-            for nm in ("g", "q", "h", "f"):
+            for nm in ("g", "q", "h", "f", "hd"):
                 if ("def %s(" % nm) in b:
                     parts[nm] = b.strip("\n") + "\n"
         prog.exec(parts[chunk])
